@@ -36,7 +36,7 @@ func cfail(format string, a ...any) {
 }
 
 var specialFuncs = map[string]bool{"old": true, "implies": true, "forall": true, "exists": true, "elems": true, "fresh": true,
-	"sliceIs": true, "ite": true, "unchanged": true, "sameArray": true, "mapof": true, "allocated": true, "iff": true, "has": true, "clock": true}
+	"sliceIs": true, "ite": true, "unchanged": true, "sameArray": true, "mapof": true, "allocated": true, "iff": true, "has": true, "clock": true, "same": true}
 
 // freeIdents: identifiers in e that may refer to contract-level names.
 func freeIdents(e ast.Expr) map[string]bool {
@@ -865,10 +865,11 @@ func (env *Env) evalCall(e *ast.CallExpr) *Term {
 		recvPl = env.walkFields(recvPl, path[:len(path)-1])
 		_, wantPtr := sig.Recv().Type().(*types.Pointer)
 		_, havePtr := types.Unalias(recvPl.typ).Underlying().(*types.Pointer)
-		if _, isIface := types.Unalias(recvPl.typ).Underlying().(*types.Interface); isIface {
-			cfail("interface method call in contract: %s", exprString(e))
-		}
+		_, isIface := types.Unalias(recvPl.typ).Underlying().(*types.Interface)
 		switch {
+		case isIface:
+			// interface method: an uninterpreted function of the receiver and arguments (below)
+			args = append(args, env.readPlace(recvPl))
 		case wantPtr && havePtr, !wantPtr && !havePtr:
 			args = append(args, env.readPlace(recvPl))
 		case wantPtr && !havePtr:
@@ -977,6 +978,9 @@ func (env *Env) evalSpecial(name string, e *ast.CallExpr) *Term {
 			p = c.SlPtr(p)
 		}
 		return c.And(c.IntCmp(">", c.RRoot(p), c.Int(0)), c.IntCmp("<", c.RRoot(p), env.st.alloc))
+	case "same":
+		// same(a, b): identical values (for slices: same array, offset, length and capacity)
+		return c.Eq(env.eval(e.Args[0]), env.eval(e.Args[1]))
 	case "has":
 		// has(m, k): key k is present in map m
 		mv := env.eval(e.Args[0])
